@@ -105,6 +105,15 @@ class Sched(object):
                 fn()
             except Killed:
                 code = -9
+            except SystemExit as e:
+                # multiprocessing's bootstrap: sys.exit(None) -> 0, sys.exit(n) -> n, sys.exit("message") -> 1
+                if e.code is None:
+                    code = 0
+                elif isinstance(e.code, int):
+                    code = e.code
+                else:
+                    code = 1
+                exc = e if code != 0 else None
             except BaseException as e:  # noqa - like a real process: exit code 1, nothing propagates
                 code, exc = 1, e
             self._finish(name, code, exc)
